@@ -14,7 +14,7 @@ import json, os, shutil, subprocess, sys, time
 prop, tag = sys.argv[1], sys.argv[2]
 checks = sys.argv[3:] or [prop]
 wt = f"/tmp/mut/{prop}"
-out = f"/tmp/mut/out/{prop}"
+out = os.environ.get("EVAL_OUT", f"/tmp/mut/out/{prop}")
 diff = f"{out}/{tag}.diff"
 demo = f"{out}/demo_{tag}.py"
 seed = os.environ.get("VERIF_SEED", "0")
